@@ -212,6 +212,16 @@ CacheKeeps(e, pre) ==
      \A x \in Range(pre.cache) : x.h > e.post.h =>
         \E y \in Range(e.post.cache) : /\ y.h = x.h /\ Len(y.prepare) >= Len(x.prepare) /\ Len(y.chViews) >= Len(x.chViews)
                                         /\ Len(y.preCommit) >= Len(x.preCommit) /\ Len(y.commit) >= Len(x.commit)
+\* ... and a payload for the next height is taken in whenever it arrives - also between the hand-over of the block and Reset
+EarlyKept(e, pre) ==
+  (pre.started /\ e.post.started /\ e.call = "OnReceive" /\ e.post.h = pre.h /\ e.arg.h = pre.h + 1 /\ e.arg.from < pre.n
+     /\ e.arg.t \in {"PrepareRequest", "PrepareResponse", "ChangeView", "Commit", "PreCommit"})
+  => \E y \in Range(e.post.cache) :
+        /\ y.h = e.arg.h
+        /\ e.arg \in (CASE e.arg.t \in {"PrepareRequest", "PrepareResponse"} -> Range(y.prepare)
+                        [] e.arg.t = "ChangeView" -> Range(y.chViews)
+                        [] e.arg.t = "PreCommit" -> Range(y.preCommit)
+                        [] OTHER -> Range(y.commit))
 \* ... and are used: a view-0 proposal of the new height's primary that was waiting in the cache is stored by Reset
 EarlyUsedT(e, pre) ==
   (pre.started /\ e.post.started /\ e.call = "Reset" /\ e.post.v = 0) =>
@@ -531,6 +541,7 @@ StepViolations(e, pre, cfg) ==
           \cup P("C05", "QuietAfterBlock", QuietAfterBlock(e))
           \cup P("C05", "CacheKeeps", CacheKeeps(e, pre))
           \cup P("C05", "EarlyUsedT", EarlyUsedT(e, pre))
+          \cup P("C05", "EarlyKept", EarlyKept(e, pre))
           \cup ( IF e.call \in {"Start", "Reset"} THEN P("C05", "CleanReset", CleanReset(e, pre)) ELSE {} )
           \cup P("C06", "PrimaryOK", PrimaryOK(e.post))
           \cup P("C07", "BlockAfterPre", BlockAfterPre(e, pre))
